@@ -1550,6 +1550,10 @@ class Interp:
         return "unknown", None
 
     def contains(self, container, item, text):
+        if container[0] == "fn" and self._attrs_of_node(container) is not None:
+            v_ = self.node_attr(self._attrs_of_node(container), item)
+            if v_[0] in ("atom", "c"):
+                return self.concrete(v_) != C_NONE
         if container[0] == "c" and isinstance(container[1], (tuple, list, str, dict, set, frozenset)):
             elems = [("c", x) for x in container[1]] if not isinstance(container[1], str) else None
             if elems is None:
@@ -1618,6 +1622,8 @@ class Interp:
                     return v_
         if b[0] == "node":
             return self.node_attr(b[1], k)
+        if b[0] == "fn" and self._attrs_of_node(b) is not None:
+            return self.node_attr(self._attrs_of_node(b), k)
         kc = self.concrete(k) if k[0] == "atom" and b[0] in ("dict",) else k
         if b[0] == "list" and k[0] == "c" and isinstance(k[1], int):
             if -len(b[1]) <= k[1] < len(b[1]) and not (len(b) > 2 and b[2] and k[1] < 0):
@@ -2413,9 +2419,26 @@ class Interp:
             o.fields.setdefault("@ext", ("list", list(args) + list(kwargs.values())))
         return ov
 
+    @staticmethod
+    def _attrs_of_node(v):
+        """the stanza whose attribute dictionary (`node.attributes`) the value is, else None"""
+        if v[0] == "fn" and v[1] == "attributes" and len(v[2]) == 1 and v[2][0][0] == "node":
+            return v[2][0][1]
+        return None
+
     def method_call(self, recv, name, args, kwargs, env, depth, e):
         recv = self.force(recv, deref=True)
         k = recv[0]
+        if k == "fn" and name in ("get", "__getitem__", "__contains__") and args and self._attrs_of_node(recv) is not None:
+            # the attribute dictionary of a symbolic stanza read directly: the same cells as node[key]
+            n_ = self._attrs_of_node(recv)
+            v_ = self.node_attr(n_, args[0])
+            if name == "__contains__":
+                return ("c", self.concrete(v_) != C_NONE) if v_[0] in ("atom", "c") else ("fn", "contains", [recv, args[0]])
+            if name == "get" and len(args) > 1:
+                vc_ = self.concrete(v_) if v_[0] == "atom" else v_
+                return args[1] if vc_ == C_NONE else vc_
+            return v_
         if k in ("list", "dict", "c") and name in ("__getitem__", "__contains__", "__len__") and not (k == "c" and not isinstance(recv[1], (str, bytes, bytearray, tuple, list, dict))):
             # the operator forms called by name (`table.__getitem__` handed to map)
             if name == "__getitem__" and len(args) == 1:
